@@ -363,6 +363,72 @@ def check_files(idx_a):
     return fails, n
 
 
+HIST_OPS = ["ok0", "ok1", "fail0-keep", "fail1-keep", "fail2-keep", "fail1-forget", "fail1-retry0", "fail0-retry1", "release"]
+
+
+def check_write_histories(depth, ext, first):
+    """Every sequence of <= depth calls on ONE path: complete writes of two lists, writes whose source of triples breaks after j triples
+    (the caller keeps the exception object, forgets it, or writes other data from inside the except block), and the caller releasing
+    the exceptions it kept.  Once a write_triples call has returned, read_triples returns that list - after every later step that
+    is not itself a write to the path."""
+    import gc
+
+    fails = []
+    n = 0
+    lists = [[Triple.from_curies("x:9", "y:8", "z:7")],
+             [Triple.from_curies("a:1", "b:2", "c:3"), Triple.from_curies("a:1", "b:2", 'd:"4'), Triple.from_curies("e:5", "f:6", "g:7"), Triple.from_curies("h:\t", "i:9", "j:0")]]
+    broken = lists[1]
+
+    def source(j):
+        yield from broken[:j]
+        raise RuntimeError("source failed")
+
+    path = os.path.join(tmpdir(), f"{os.getpid()}.hist.{ext}")
+    for seq in it.product(HIST_OPS, repeat=depth):
+        if seq[0] != first:
+            continue
+        kept = []
+        last = None          # the list of the last write_triples call that returned, None while unspecified
+        for step, op in enumerate(seq):
+            try:
+                if op.startswith("ok"):
+                    write_triples(lists[int(op[2])], path)
+                    last = lists[int(op[2])]
+                elif op == "release":
+                    kept.clear()
+                    gc.collect()
+                else:
+                    j = int(op[4])
+                    how = op.split("-")[1]
+                    try:
+                        write_triples(source(j), path)
+                        fails.append(("triples-file/failing-source-not-reported", f"{ext}: {seq[:step + 1]}"))
+                    except RuntimeError as e:
+                        last = None
+                        if how == "keep":
+                            kept.append(e)
+                        elif how.startswith("retry"):
+                            write_triples(lists[int(how[5])], path)
+                            last = lists[int(how[5])]
+                            if read_triples(path) != last:
+                                fails.append(("triples-file/complete-write-not-read-back", f"{ext}: {seq[:step + 1]} (read inside the except block)"))
+                n += 1
+                if last is not None:
+                    back = read_triples(path)
+                    if back != last:
+                        fails.append(("triples-file/complete-write-later-overwritten", f"{ext}: after {list(seq[:step + 1])} on one path, read_triples returned {[(t.subject.curie, t.object.curie) for t in back][:2]} "
+                                      f"({len(back)} triples), the last completed write_triples wrote {[(t.subject.curie, t.object.curie) for t in last][:2]} ({len(last)} triples)"))
+            except Exception as e:  # noqa
+                fails.append(("triples-file/history-raises", f"{ext}: {seq[:step + 1]}: {type(e).__name__}: {str(e)[:80]}"))
+            if fails:
+                kept.clear()
+                gc.collect()
+                return fails, n
+        kept.clear()
+        gc.collect()
+    return fails, n
+
+
 def sweep_specs():
     """Breadth sweep (mc/sweeps.py): every token inside and as the whole of the prefix / identifier / name, for each class."""
     from .. import sweeps
@@ -419,6 +485,7 @@ def units(tier, seed):
     us += [{"kind": "order", "first": ch} for ch in chunks(refs, 24)]
     us += [{"kind": "order-mixed"}]
     us += [{"kind": "files", "a": i} for i in range(len(FILE_REFS))]
+    us += [{"kind": "write-histories", "depth": 3 if tier == "quick" else 4, "ext": ext, "first": op} for ext in ("tsv", "tsv.gz") for op in HIST_OPS]
     return us
 
 
@@ -495,6 +562,12 @@ def run_unit(unit, ctx):
                     f = check_order_triple(a, b, c)
                     ctx.count("order_triples")
                     rep(f, {"kind": "order", "a": list(a), "b": list(b), "c": list(c)})
+    elif k == "write-histories":
+        f, n = check_write_histories(unit["depth"], unit["ext"], unit["first"])
+        ctx.count("evaluations", n)
+        ctx.count("transitions", n)
+        ctx.count("write_history_steps", n)
+        rep(f, dict(unit))
     elif k == "files":
         f, n = check_files(unit["a"])
         ctx.count("evaluations", n)
@@ -517,6 +590,8 @@ def replay(case):
         f = check_order_triple(tuple(case["a"]), tuple(case["b"]), tuple(case["c"]))
     elif k == "file-refs":
         f = check_file_refs([tuple(x) for x in case["pairs"]])
+    elif k == "write-histories":
+        f = check_write_histories(case["depth"], case["ext"], case["first"])[0]
     else:
         f = check_files(case["a"])[0]
     return [("C15/" + s, m) for s, m in f]
@@ -530,7 +605,9 @@ def describe(tier):
         "from_curie / string validation / JSON round trip / immutability; all ordered pairs of objects (equality, hash, set membership, <); all "
         "triples of the Reference objects and all triples of a mixed-class subset (irreflexive, transitive, total, antisymmetric); 3 converter "
         "contexts x all prefixes x 4 entry points x 3 classes; write_triples/read_triples of every triple over 8 references (identifiers with tab, "
-        "quote, LF, CR, separators, empty) individually and as one file, plain and gzip; distinct_nontrivial = ordered pairs of different "
+        "quote, LF, CR, separators, empty) individually and as one file, plain and gzip; every sequence of <= 3 (thorough 4) write steps on one path over "
+        f"{HIST_OPS} (complete writes, writes whose source breaks after j triples with the exception kept / forgotten / answered by a retry, release of the kept exceptions), "
+        "the file read back after every step; distinct_nontrivial = ordered pairs of different "
         "objects with equal (prefix, identifier)",
         "bounds": {"objects": n, "file_references": len(FILE_REFS)},
         "exhaustive": True,
@@ -539,4 +616,4 @@ def describe(tier):
 
 
 def required_counters(tier):
-    return ["objects", "validated", "pairs_equal_across_classes_or_names", "order_triples", "context_checks", "file_round_trips", "unparsable_checks"]
+    return ["objects", "validated", "pairs_equal_across_classes_or_names", "order_triples", "context_checks", "file_round_trips", "unparsable_checks", "write_history_steps"]
